@@ -11,15 +11,30 @@ let admin_s = "ADMINTOKEN0000000000000000000000"
 let user_s = "USERTOKEN00000000000000000000000"
 let revoked_s = "REVOKEDTOKEN00000000000000000000"
 let unknown_s = "UNKNOWNTOKEN00000000000000000000"
-let admin = coq_of_string admin_s
 let table = [coq_of_string user_s]
 
-let subst t =
+(* adm: the admin token of the case - the configured value when the case names one ("@<value>"), else symbolic *)
+let subst adm t =
   Stdlib.List.fold_left (fun acc (p, v) ->
       Str.global_substitute (Str.regexp_string p) (fun _ -> v) acc)
-    t ["$A", admin_s; "$U", user_s; "$R", revoked_s; "$X", unknown_s]
+    t ["$A", adm; "$U", user_s; "$R", revoked_s; "$X", unknown_s]
 
-type case = { auth : bool; prof : bool; met : bool; fail : bool; meth : string; path : string; hdr : string }
+type case = { auth : bool; prof : bool; met : bool; fail : bool; over : string; admin : String0.string;
+              meth : string; path : string; hdr : string }
+
+(* "<a><p><m>[f][~T][@admin]" *)
+let parse_cfg (cf : string) =
+  let n = Stdlib.String.length cf in
+  if n < 3 then None else
+    let cf, adm = match Stdlib.String.index_opt cf '@' with
+      | Some i -> Stdlib.String.sub cf 0 i, Stdlib.String.sub cf (i + 1) (n - i - 1)
+      | None -> cf, admin_s in
+    let flags = Stdlib.String.sub cf 0 3 and rest = Stdlib.String.sub cf 3 (Stdlib.String.length cf - 3) in
+    let fail, rest = if rest <> "" && rest.[0] = 'f' then true, Stdlib.String.sub rest 1 (Stdlib.String.length rest - 1) else false, rest in
+    let over = if Stdlib.String.length rest = 2 && rest.[0] = '~' then Some (Stdlib.String.sub rest 1 1) else if rest = "" then Some "" else None in
+    match over with
+    | None -> None
+    | Some over -> Some (flags.[0] = '1', flags.[1] = '1', flags.[2] = '1', fail, over, adm)
 
 (* "cfg=<a><p><m> <METHOD> <pattern> H-" | "... H=<template>" *)
 let parse (input : string) : case option =
@@ -38,13 +53,16 @@ let parse (input : string) : case option =
           let meth = Stdlib.String.sub input (i1 + 1) (i2 - i1 - 1) in
           let path = Stdlib.String.sub input (i2 + 1) (i3 - i2 - 1) in
           let h = Stdlib.String.sub input (i3 + 1) (n - i3 - 1) in
-          if (Stdlib.String.length cfg <> 7 && not (Stdlib.String.length cfg = 8 && cfg.[7] = 'f')) || Stdlib.String.sub cfg 0 4 <> "cfg=" || Stdlib.String.length h < 2 || h.[0] <> 'H' then None
+          if Stdlib.String.length cfg < 7 || Stdlib.String.sub cfg 0 4 <> "cfg=" || Stdlib.String.length h < 2 || h.[0] <> 'H' then None
           else
-            let hdr = if h = "H-" then Some "" (* absent: c.GetHeader returns "" *)
-              else if h.[1] = '=' then Some (subst (Stdlib.String.sub h 2 (Stdlib.String.length h - 2))) else None in
-            (match hdr with
+            (match parse_cfg (Stdlib.String.sub cfg 4 (Stdlib.String.length cfg - 4)) with
              | None -> None
-             | Some hdr -> Some { auth = cfg.[4] = '1'; prof = cfg.[5] = '1'; met = cfg.[6] = '1'; fail = Stdlib.String.length cfg = 8; meth; path; hdr })))
+             | Some (auth, prof, met, fail, over, adm) ->
+               let hdr = if h = "H-" then Some "" (* absent: c.GetHeader returns "" *)
+                 else if h.[1] = '=' then Some (subst adm (Stdlib.String.sub h 2 (Stdlib.String.length h - 2))) else None in
+               (match hdr with
+                | None -> None
+                | Some hdr -> Some { auth; prof; met; fail; over; admin = coq_of_string adm; meth; path; hdr }))))
 
 let err_s = function
   | Auth.ErrMissingAuthHeader -> "ErrMissingAuthHeader"
@@ -55,22 +73,47 @@ let err_s = function
 
 let route c = (coq_of_string c.meth, coq_of_string c.path)
 
+(* the held request of an overlap configuration: GET /api/v1/access with "Bearer <held token>" *)
+let held_hdr c = coq_of_string (subst (string_of_coq c.admin) ("Bearer $" ^ c.over))
+
 let model input =
   match parse input with
   | None -> "BAD-INPUT"
   | Some c ->
+    let admin = c.admin in
     let r = route c in
-    if Auth.under_api r then
-      (match Auth.decide c.auth admin (Auth.visible (not c.fail) table) (Auth.needs_admin r) (coq_of_string c.hdr) with
-       | Auth.Reached -> "pass"
-       | Auth.Denied e -> "401 " ^ err_s e ^ " unchanged")
-    else "pass"   (* routes outside the API group carry no authentication middleware *)
+    let fg =
+      if Auth.under_api r then
+        (match Auth.decide c.auth admin (Auth.visible (not c.fail) table) (Auth.needs_admin r) (coq_of_string c.hdr) with
+         | Auth.Reached -> "pass"
+         | Auth.Denied e -> "401 " ^ err_s e ^ " unchanged")
+      else "pass"   (* routes outside the API group carry no authentication middleware *) in
+    if c.over = "" then fg
+    else
+      (* every verdict depends on its own credential only: the held request is decided as if it were alone *)
+      fg ^ " bg=" ^ (match Auth.decide c.auth admin (Auth.visible (not c.fail) table) false (held_hdr c) with
+          | Auth.Reached -> "pass"
+          | Auth.Denied e -> "401:" ^ err_s e)
 
 let spec input obs =
   match parse input with
   | None -> "FAIL malformed-input"
   | Some c ->
+    let admin = c.admin in
     let r = route c in
+    (* overlap configurations: split off and judge the answer of the held request *)
+    let w0 = words obs in
+    let bg_fail, obs =
+      if c.over = "" then None, obs
+      else match Stdlib.List.rev w0 with
+        | last :: rest_rev when Stdlib.String.length last > 3 && Stdlib.String.sub last 0 3 = "bg=" ->
+          let got = Stdlib.String.sub last 3 (Stdlib.String.length last - 3) in
+          let must = Auth.spec_reaches c.auth admin table (coq_of_string "GET", coq_of_string "/api/v1/access") (held_hdr c) in
+          let ok = if must then got = "pass" else Stdlib.String.length got > 4 && Stdlib.String.sub got 0 4 = "401:" in
+          (if ok then None else Some ("FAIL overlap-interference held request: " ^ got)),
+          Stdlib.String.concat " " (Stdlib.List.rev rest_rev)
+        | _ -> Some "FAIL malformed-observable no bg", obs in
+    let fg_verdict =
     if not (Auth.under_api r) then
       (if Auth.allow c.prof c.met r then "OK" else "FAIL route-outside-prefix-not-allowlisted " ^ c.meth ^ " " ^ c.path)
     else begin
@@ -93,6 +136,7 @@ let spec input obs =
       | false, ["401"; _; "unchanged"] -> "OK"
       | false, ["401"; _; ch] -> "FAIL state-changed-on-rejected-request " ^ ch
       | false, _ -> "FAIL malformed-observable " ^ obs
-    end
+    end in
+    if fg_verdict <> "OK" then fg_verdict else (match bg_fail with Some m -> m | None -> "OK")
 
 let () = run_driver model spec
